@@ -25,49 +25,7 @@ const TOL: f64 = 1e-10;
 
 // ---- dense reference arithmetic with a dynamic number of variables --------------------------------
 
-#[derive(Clone, Debug)]
-struct DR {
-    v: f64,
-    g: Vec<f64>,
-    h: Vec<f64>,
-}
-impl DR {
-    fn zero(nv: usize) -> DR {
-        DR { v: 0.0, g: vec![0.0; nv], h: vec![0.0; nv * nv] }
-    }
-    fn leaf(nv: usize, v: f64, var: Option<(usize, f64)>) -> DR {
-        let mut d = DR::zero(nv);
-        d.v = v;
-        if let Some((i, g)) = var {
-            d.g[i] = g;
-        }
-        d
-    }
-    fn abs(&self) -> DR {
-        DR { v: self.v.abs(), g: self.g.iter().map(|x| x.abs()).collect(), h: self.h.iter().map(|x| x.abs()).collect() }
-    }
-    fn add(&self, o: &DR, s: f64) -> DR {
-        DR {
-            v: self.v + s * o.v,
-            g: self.g.iter().zip(o.g.iter()).map(|(a, b)| a + s * b).collect(),
-            h: self.h.iter().zip(o.h.iter()).map(|(a, b)| a + s * b).collect(),
-        }
-    }
-    fn mul(&self, o: &DR) -> DR {
-        let nv = self.g.len();
-        let mut r = DR::zero(nv);
-        r.v = self.v * o.v;
-        for i in 0..nv {
-            r.g[i] = self.g[i] * o.v + o.g[i] * self.v;
-        }
-        for i in 0..nv {
-            for j in 0..nv {
-                r.h[i * nv + j] = self.h[i * nv + j] * o.v + o.h[i * nv + j] * self.v + self.g[i] * o.g[j] + self.g[j] * o.g[i];
-            }
-        }
-        r
-    }
-}
+use crate::dynref::DR;
 
 fn dr_of_number(x: &Number, names: &[String]) -> DR {
     let nv = names.len();
